@@ -5,6 +5,7 @@
 -/
 import SSEPyVerif.Proofs.Schemes.DP17Shape
 import SSEPyVerif.Proofs.Schemes.ANSS16Complete
+import SSEPyVerif.Props.C16
 namespace SSEPy.Sch.DP17
 open SSEPy.Sch
 
@@ -379,5 +380,78 @@ theorem initLevels_linv (N : Nat) (levels : List Int) (acc ls : List Level) (h :
         rcases hl with hl | rfl
         · exact hacc l hl
         · exact hf
+
+/-- the hash-table update cannot raise an IndexError: the mask `H(F_k2(w) ‖ count)` has exactly as many bytes as the
+    `level ‖ bucket` field it is xor-ed with (the digest function returns digests of one positive length) -/
+theorem htInsert_noIndexError (d : Nat) (hd0 : 0 < d) (hsha : ∀ m, (lv.sha m).length = d)
+    (k1 k2 w : Bytes) (count i x : Nat) (c : List Bytes) (HT : Table) (e : Err)
+    (h : htInsert cfg lv k1 k2 w count i x c HT = .error e) : e ≠ .indexError := by
+  unfold htInsert at h
+  split at h
+  · cases h
+  · simp only [bind, Except.bind] at h
+    split at h
+    · -- htKey failed
+      rename_i e0 hk
+      cases h
+      simp only [htKey, bind, Except.bind] at hk
+      split at hk
+      · rename_i e1 hp
+        cases hk
+        unfold HmacPRF.call at hp
+        split at hp
+        · cases hp; decide
+        · split at hp
+          · cases hp; decide
+          · cases hp
+      · rename_i tag _
+        obtain ⟨r, hr, _⟩ := C16.ctr_expand_len lv.sha d hsha hd0 (tag ++ natToBytesMin count) cfg.dsz
+        unfold hashH at hk
+        rw [hr] at hk; cases hk
+    · split at h
+      · rename_i key _ e0 hv
+        cases h
+        simp only [htVal, bind, Except.bind] at hv
+        split at hv
+        · rename_i e1 hib
+          cases hv
+          unfold intToBytesNat at hib
+          split at hib
+          · cases hib; decide
+          · cases hib
+        · rename_i ib hib
+          split at hv
+          · rename_i e1 hxb
+            cases hv
+            unfold intToBytesNat at hxb
+            split at hxb
+            · cases hxb; decide
+            · cases hxb
+          · rename_i xb hxb
+            split at hv
+            · rename_i e1 hp
+              cases hv
+              unfold HmacPRF.call at hp
+              split at hp
+              · cases hp; decide
+              · split at hp
+                · cases hp; decide
+                · cases hp
+            · rename_i vtag _
+              obtain ⟨r, hr, hrl⟩ := C16.ctr_expand_len lv.sha d hsha hd0 (vtag ++ natToBytesMin count) cfg.dsz
+              unfold hashH at hv
+              rw [hr] at hv
+              simp only at hv
+              have l1 := (C17.int_roundtrip _ _ _ hib).2
+              have l2 := (C17.int_roundtrip _ _ _ hxb).2
+              unfold bytesXor at hv
+              have hle : ¬ r.length > (ib ++ xb).length := by
+                rw [List.length_append, l1, l2, hrl]
+                have : (cfg.dsz : Int).toNat = cfg.dsz := by omega
+                omega
+              rw [if_neg hle] at hv
+              cases hv
+      · simp only [pure, Except.pure] at h
+        cases h
 
 end SSEPy.Sch.DP17
